@@ -30,7 +30,7 @@ const (
 
 func init() {
 	register("C15", "other", "T6 WhoMayCall, T2 Dominates, T5 ExactlyOneOf, T4 GuardedBy with the linear normaliser, T16b SiblingAgreement (acquire/release metric), T3 PostDominates (error exits), T20 CounterInvariant (forward data flow of index - call count)",
-		"Decides the structural conditions of the event processor's release/semaphore contract: the Released callback handed to the ordering buffer and the one process() calls are the same closure made in New, which releases dag.Metric{1, size of that event} exactly once on every path and forwards to the nil-guarded user callback saved before the overwrite; nobody else in the package releases or acquires; Enqueue acquires the Metric() of the very batch its tasks iterate, and Events.Metric is len / sum of e.Size(), i.e. the per-event release amounts add up to the acquired amount; every path of process() does exactly one of Released(event) / buffer.PushEvent(event); PushEvent is reached only for a passing check and only when NOT(Lamport > HighestLamport()+1+EventsBufferLimit.Num) (normalised), the other edge releases with an error; worker tasks are enqueued only after a successful Acquire and every exit of Enqueue on which a task was not enqueued gives the acquired amount back; Stop closes quit, terminates the semaphore and waits for the workers before it clears the buffer; batch order (C15.order): a check result carries its event's index in the batch, the ordered mode keeps a received result under its own pos, and at every process() call of the ordered mode the result handed on is the one at index N = number of process() calls the task has made so far (a linear invariant 'index - N = 0' established by a forward data-flow analysis over the task's CFG, independent of how the drain loop is written). NOT decided: the numeric balance of the semaphore over a history (needs the runtime amounts), and what happens to batches in flight when quit is closed (the property excludes them).",
+		"Decides the structural conditions of the event processor's release/semaphore contract: the Released callback handed to the ordering buffer and the one process() calls are the same closure made in New, which releases dag.Metric{1, size of that event} exactly once on every path and forwards to the nil-guarded user callback saved before the overwrite; nobody else in the package releases or acquires; Enqueue acquires the Metric() of the very batch its tasks iterate, and Events.Metric is len / sum of e.Size(), i.e. the per-event release amounts add up to the acquired amount; every path of process() does exactly one of Released(event) / buffer.PushEvent(event); PushEvent is reached only for a passing check and only when NOT(Lamport > HighestLamport()+1+EventsBufferLimit.Num) (normalised), the other edge releases with an error; worker tasks are enqueued only after a successful Acquire and every exit of Enqueue on which a task was not enqueued gives the acquired amount back; Stop closes quit, terminates the semaphore and waits for the workers before it clears the buffer; batch order (C15.order): a check result carries its event's index in the batch, the ordered mode keeps a received result under its own pos, and at every process() call of the ordered mode the result handed on is the one at index N = number of process() calls the task has made so far (a linear invariant 'index - N = 0' established by a forward data-flow analysis over the task's CFG, independent of how the drain loop is written). New, Enqueue (with its task literals), process, Stop and Events.Metric are analysed as inlined views: the task bodies, the give-back, the acquire, the far-future test or the releasing closure may live in helper methods of the package (a helper that only those functions call is part of their view and is not a caller of its own); a named condition stands for the comparison it was defined as; a deferred call in Stop runs at the exit, in reverse order of the defer statements; Events.Metric may accumulate the size in a local that is copied into the result after the loop. NOT decided: the numeric balance of the semaphore over a history (needs the runtime amounts), and what happens to batches in flight when quit is closed (the property excludes them).",
 		[]string{"application callbacks are opaque", "the ordering buffer releases every pushed event exactly once (C14)", "DataSemaphore bookkeeping (C30)", "Lamport arithmetic does not wrap uint32"},
 		runC15)
 }
@@ -49,7 +49,7 @@ func c15PkgFuncs(p *core.Prog, rel string) []*core.FuncInfo {
 		}
 		seen[f] = true
 		out = append(out, f)
-		for _, l := range f.Lits() {
+		for _, l := range c10Lits(f) {
 			walk(l)
 		}
 	}
@@ -81,7 +81,7 @@ func c15DefsOf(f *core.FuncInfo, v *types.Var) []c15Def {
 		for _, a := range assignsToVar(g, v) {
 			out = append(out, c15Def{g, a})
 		}
-		for _, l := range g.Lits() {
+		for _, l := range c10Lits(g) {
 			walk(l)
 		}
 	}
@@ -166,6 +166,10 @@ func c15ExpandLin(f *core.FuncInfo, l *core.Lin, namer core.AtomNamer) {
 
 // c15LinFact normalises an integer comparison fact, looking through single-definition locals.
 func c15LinFact(f *core.FuncInfo, ft core.Fact, namer core.AtomNamer) (core.LinCmp, bool) {
+	// a named condition (`tooFar := a > b; if tooFar`) stands for the comparison it was defined as
+	if rhs, _ := c15SingleDef(f, varOf(f, ft.Expr)); rhs != nil {
+		ft.Expr = rhs
+	}
 	lc, ok := core.NormLinCmp(f.Info(), ft, namer)
 	if !ok {
 		return lc, false
@@ -244,9 +248,10 @@ func c15IsSizeOf(f *core.FuncInfo, e ast.Expr, isEv func(ast.Expr) bool) bool {
 }
 
 // c15SamePath: the expression is a field chain root.path with the given root variable and path.
+// (the root may be a single-definition copy of the variable: `v := root; v.a.b`)
 func c15SamePath(f *core.FuncInfo, e ast.Expr, root *types.Var, path []string) bool {
 	r, p := fieldPath(f, e)
-	if root == nil || varOf(f, r) != root || len(p) != len(path) {
+	if root == nil || (varOf(f, r) != root && varOf(f, c15Through(f, r)) != root) || len(p) != len(path) {
 		return false
 	}
 	for i := range p {
@@ -288,6 +293,22 @@ type c15Wrapper struct {
 	assignPt core.Point     // point of the overwrite
 }
 
+// c15View gives the inlined view of a function of the processor: helper methods it calls are seen as part
+// of its body (process stays a call: the rules count its call sites).
+func c15View(f *core.FuncInfo) *core.FuncInfo { return c10Inlined(f, c15Proc+".process") }
+
+// c15Funcs lists the functions and literals of the package with New, Enqueue, process and Stop replaced
+// by their inlined views (helpers that only those call are part of the views and not listed).
+func c15Funcs(p *core.Prog) []*core.FuncInfo {
+	var views []*core.FuncInfo
+	for _, n := range []string{c15Pkg + ".New", c15Proc + ".Enqueue", c15Proc + ".process", c15Proc + ".Stop"} {
+		if f := p.Func(n); f != nil {
+			views = append(views, c15View(f))
+		}
+	}
+	return c10PkgView(p, c15Pkg, views...)
+}
+
 func runC15(c *core.Ctx) {
 	p := c.P
 	var wrap c15Wrapper
@@ -309,7 +330,7 @@ func runC15(c *core.Ctx) {
 		c.Fld(c15SemF)
 		c.Fld(c15RelCB)
 		c.Fld(c15CbF)
-		newF := c.Fn(c15Pkg + ".New")
+		newF := c15View(c.Fn(c15Pkg + ".New"))
 		// which variables of New are stored into the eventsSemaphore field
 		for _, a := range assignsToField(newF, c15SemF) {
 			if v := varOf(newF, a.RHS); v != nil {
@@ -393,7 +414,7 @@ func runC15(c *core.Ctx) {
 			c.Undecided("buffer Released is the releasing closure", "T6 provenance", ord[0].Pos(), "cannot identify the function stored as the ordering buffer's Released callback ("+exprStr(relExpr)+") as a single closure created in New before dagordering.New")
 			return
 		}
-		w := p.LitInfo(lit)
+		w := c10LitInfo(newF, lit)
 		c.Need(w != nil, "literal is indexed")
 		wrap.lit = w
 		c.Pass("buffer Released is the releasing closure", "T6 provenance", "dagordering.Callback.Released is the closure "+short(w.Name)+" assigned in New before the buffer is built")
@@ -424,7 +445,7 @@ func runC15(c *core.Ctx) {
 			return true
 		})
 		c.ExpectAtLeast("stores to Processor.callback in New", nStore, 1)
-		for _, f := range c15PkgFuncs(p, c15Pkg) {
+		for _, f := range c15Funcs(p) {
 			if c15Root(f) == newF {
 				continue
 			}
@@ -537,10 +558,10 @@ func runC15(c *core.Ctx) {
 			"the user's Released callback can be skipped, called twice or called when nil: an event is not reported released exactly once")
 
 		// T6: who may call Release / Acquire / the Released member in this package
-		enq := c.Fn(c15Proc + ".Enqueue")
-		proc := c.Fn(c15Proc + ".process")
+		enq := c15View(c.Fn(c15Proc + ".Enqueue"))
+		proc := c15View(c.Fn(c15Proc + ".process"))
 		nRel := 0
-		for _, f := range c15PkgFuncs(p, c15Pkg) {
+		for _, f := range c15Funcs(p) {
 			for _, cs := range f.Calls() {
 				switch {
 				case cs.Name == c15Release:
@@ -568,7 +589,7 @@ func runC15(c *core.Ctx) {
 	})
 
 	c.Clause("C15.metric", func() {
-		enq := c.Fn(c15Proc + ".Enqueue")
+		enq := c15View(c.Fn(c15Proc + ".Enqueue"))
 		acq := enq.CallsMatching(func(cs *core.CallSite) bool { return cs.Name == c15Acquire && isSem(enq, cs.Recv()) })
 		c.Need(len(acq) == 1 && len(acq[0].Call.Args) >= 1, "Enqueue acquires the events semaphore once")
 		var batch *types.Var
@@ -597,7 +618,7 @@ func runC15(c *core.Ctx) {
 			"the checker task does not hand every element of the acquired batch (with its own check result) on: an event acquired for is never processed or released")
 		nProc := 0
 		okProc := true
-		for _, f := range c15PkgFuncs(p, c15Pkg) {
+		for _, f := range c15Funcs(p) {
 			for _, cs := range f.CallsTo(c15Proc + ".process") {
 				nProc++
 				if c15Root(f) != enq || len(cs.Call.Args) != 3 {
@@ -617,62 +638,10 @@ func runC15(c *core.Ctx) {
 		c.ExpectAtLeast("process() call sites", nProc, 2)
 
 		// Events.Metric is Num = len, Size = sum of e.Size()
-		mf := c.Fn(c15EvMetric)
+		mf := c10Inlined(c.Fn(c15EvMetric))
 		recv := mf.Recv()
 		c.Need(recv != nil, "Events.Metric has a named receiver")
-		var acc *types.Var // the accumulated metric variable
-		numOK, sizeOK := false, false
-		nNum, nSize := 0, 0
-		for _, a := range assignments(mf) {
-			root, path := fieldPath(mf, a.LHS)
-			if len(path) != 1 || varOf(mf, root) == nil {
-				continue
-			}
-			switch path[0] {
-			case c15MetricT + ".Num":
-				nNum++
-				call, _ := ast.Unparen(core.StripConv(mf.Info(), a.RHS)).(*ast.CallExpr)
-				if a.Tok == token.ASSIGN && call != nil && calleeName(mf, call) == "builtin.len" && len(call.Args) == 1 && varOf(mf, call.Args[0]) == recv {
-					numOK = true
-					acc = varOf(mf, root)
-					for _, rp := range mf.ReturnPoints() {
-						if ok, _ := mf.MustPassBefore([]core.Point{a.Pt}, rp); !ok {
-							numOK = false
-						}
-					}
-				}
-			case c15MetricT + ".Size":
-				nSize++
-				if a.Tok != token.ADD_ASSIGN {
-					continue
-				}
-				// an iteration over the whole receiver (range, or counted with recv[i]) adding the element's size
-				_, it := c10LoopAt(mf, a.Stmt.Pos())
-				if it == nil || it.Coll == nil || varOf(mf, it.Coll) != recv || !c10Forward(it) {
-					continue
-				}
-				if !c15IsSizeOf(mf, a.RHS, func(x ast.Expr) bool { return c10IsElem(mf, it, x) }) {
-					continue
-				}
-				every, _ := it.EveryIterationPasses([]core.Point{a.Pt}, true)
-				if every && (acc == nil || acc == varOf(mf, root)) {
-					sizeOK = true
-					acc = varOf(mf, root)
-				}
-			}
-		}
-		retOK := acc != nil
-		for _, rp := range mf.ReturnPoints() {
-			r := rp.Node().(*ast.ReturnStmt)
-			if len(r.Results) == 0 {
-				// bare return: the accumulator must be the named result
-				if mf.Type.Results == nil || len(mf.Type.Results.List) != 1 || len(mf.Type.Results.List[0].Names) != 1 || mf.Info().Defs[mf.Type.Results.List[0].Names[0]] != types.Object(acc) {
-					retOK = false
-				}
-			} else if varOf(mf, r.Results[0]) != acc {
-				retOK = false
-			}
-		}
+		numOK, nNum, sizeOK, nSize, retOK := c15MetricShape(mf, recv)
 		c.Check(numOK && nNum == 1 && retOK, "Events.Metric|Num = len(batch)", "T16b SiblingAgreement", mf.Pos(),
 			"Num is len of the receiver on every path: one per event, matching the 1 released per event",
 			"Events.Metric's Num is not len(events): the count acquired for a batch differs from one per event released")
@@ -682,7 +651,7 @@ func runC15(c *core.Ctx) {
 	})
 
 	c.Clause("C15.process", func() {
-		proc := c.Fn(c15Proc + ".process")
+		proc := c15View(c.Fn(c15Proc + ".process"))
 		var ev *types.Var
 		for i := 0; i < 6; i++ {
 			if v := proc.Param(i); v != nil && c15TypeName(v.Type()) == "inter/dag.Event" {
@@ -728,7 +697,7 @@ func runC15(c *core.Ctx) {
 			"no path of process() performs two of {Released(event), PushEvent(event)}",
 			"a path of process() releases an event and also pushes it (or releases twice)"+det+": the event is reported released twice / processed after being dropped, and its amount is released twice")
 		// T6: PushEvent only from process, process only from Enqueue's tasks (counted in C15.metric)
-		for _, f := range c15PkgFuncs(p, c15Pkg) {
+		for _, f := range c15Funcs(p) {
 			if f != proc && len(f.CallsTo(c15Push)) > 0 {
 				c.Fail("PushEvent called in "+short(f.Name), "T6 WhoMayCall", f.CallsTo(c15Push)[0].Pos(), "events reach the ordering buffer outside process(): the failed-check and far-future rules are bypassed")
 			}
@@ -736,7 +705,7 @@ func runC15(c *core.Ctx) {
 	})
 
 	c.Clause("C15.future", func() {
-		proc := c.Fn(c15Proc + ".process")
+		proc := c15View(c.Fn(c15Proc + ".process"))
 		var ev, resErr *types.Var
 		for i := 0; i < 6; i++ {
 			if v := proc.Param(i); v != nil {
@@ -809,7 +778,7 @@ func runC15(c *core.Ctx) {
 	})
 
 	c.Clause("C15.enqueue", func() {
-		enq := c.Fn(c15Proc + ".Enqueue")
+		enq := c15View(c.Fn(c15Proc + ".Enqueue"))
 		acq := enq.CallsMatching(func(cs *core.CallSite) bool { return cs.Name == c15Acquire && isSem(enq, cs.Recv()) })
 		c.Need(len(acq) == 1, "Enqueue acquires the events semaphore once")
 		var batch *types.Var
@@ -898,7 +867,7 @@ func runC15(c *core.Ctx) {
 	})
 
 	c.Clause("C15.stop", func() {
-		stop := c.Fn(c15Proc + ".Stop")
+		stop := c15View(c.Fn(c15Proc + ".Stop"))
 		closeQ := stop.CallsMatching(func(cs *core.CallSite) bool {
 			return cs.Name == "builtin.close" && len(cs.Call.Args) == 1 && fieldNameOf(stop, cs.Call.Args[0]) == c15Proc+".quit"
 		})
@@ -921,19 +890,19 @@ func runC15(c *core.Ctx) {
 		}
 		c.Check(okClr, "Stop clears the buffer", "T2 Dominates", stop.Pos(), "buffer.Clear is passed on every path of Stop", "a path of Stop skips buffer.Clear: buffered events are not reported released by the time the processor is stopped")
 		for _, cl := range clr {
-			ok, wit := stop.MustPassBefore(core.Points(wait), cl.Pt)
+			ok, wit := c15RunsBefore(stop, wait, cl)
 			c.Check(ok && len(wait) > 0, "wg.Wait before buffer.Clear", "T2 Dominates", cl.Pos(), "the workers have finished before the buffer is cleared",
 				"buffer.Clear can run while the inserter worker is still running ("+stop.DescribePath(wit)+"): an event pushed after the Clear stays buffered and is never released")
-			ok2, _ := stop.MustPassBefore(core.Points(term), cl.Pt)
+			ok2, _ := c15RunsBefore(stop, term, cl)
 			c.Check(ok2 && len(term) > 0, "Terminate before buffer.Clear", "T2 Dominates", cl.Pos(), "the semaphore is terminated (waiting Enqueue callers are refused) before the buffer is cleared", "buffer.Clear is reachable without eventsSemaphore.Terminate: an Enqueue caller blocked in Acquire is admitted after the processor stopped")
 		}
 		for _, wt := range wait {
-			ok, wit := stop.MustPassBefore(core.Points(closeQ), wt.Pt)
+			ok, wit := c15RunsBefore(stop, closeQ, wt)
 			c.Check(ok && len(closeQ) > 0, "close(quit) before wg.Wait", "T2 Dominates", wt.Pos(), "the workers are told to quit before Stop waits for them", "wg.Wait is reachable without close(quit) ("+stop.DescribePath(wit)+"): the workers never exit and Stop blocks for ever, nothing is cleared")
 		}
 		c.ExpectAtLeast("wg.Wait sites in Stop", len(wait), 1)
 		// the workers waited for are really bound to this wait group and quit channel
-		newF := c.Fn(c15Pkg + ".New")
+		newF := c15View(c.Fn(c15Pkg + ".New"))
 		wn := newF.CallsTo("utils/workers.New")
 		c.ExpectAtLeast("workers.New sites", len(wn), 2)
 		for _, cs := range wn {
@@ -950,6 +919,165 @@ func runC15(c *core.Ctx) {
 	})
 
 	c15Order(c)
+}
+
+// c15SumsSizes: the `+=` statement a adds the size of the visited element in every iteration of a complete
+// iteration over recv (range, or counted with recv[i], the bound possibly held in a local).
+func c15SumsSizes(mf *core.FuncInfo, recv *types.Var, a assignment) (*core.Iteration, bool) {
+	if a.Tok != token.ADD_ASSIGN {
+		return nil, false
+	}
+	_, it := c10LoopAt(mf, a.Pt)
+	if it == nil || it.Coll == nil || varOf(mf, it.Coll) != recv || !c10Forward(it) {
+		return nil, false
+	}
+	if !c15IsSizeOf(mf, a.RHS, func(x ast.Expr) bool { return c10IsElem(mf, it, x) }) {
+		return nil, false
+	}
+	every, _ := it.EveryIterationPasses([]core.Point{a.Pt}, true)
+	return it, every
+}
+
+// c15MetricShape decides the shape of Events.Metric: the metric returned is one variable whose Num is
+// len(receiver) and whose Size is the sum of the elements' Size(), accumulated either in the field
+// itself or in a local that starts at zero, is only added to by that loop and is copied into the field
+// after the loop has finished.
+func c15MetricShape(mf *core.FuncInfo, recv *types.Var) (numOK bool, nNum int, sizeOK bool, nSize int, retOK bool) {
+	info := mf.Info()
+	var acc *types.Var
+	one := true
+	onEveryReturn := func(pt core.Point) bool {
+		for _, rp := range mf.ReturnPoints() {
+			if ok, _ := mf.MustPassBefore([]core.Point{pt}, rp); !ok {
+				return false
+			}
+		}
+		return true
+	}
+	note := func(v *types.Var) {
+		if acc != nil && acc != v {
+			one = false
+		}
+		acc = v
+	}
+	for _, a := range assignments(mf) {
+		root, path := fieldPath(mf, a.LHS)
+		v := varOf(mf, root)
+		if len(path) != 1 || v == nil {
+			continue
+		}
+		switch path[0] {
+		case c15MetricT + ".Num":
+			nNum++
+			e := core.StripConv(info, c15Through(mf, core.StripConv(info, a.RHS)))
+			call, _ := e.(*ast.CallExpr)
+			if a.Tok == token.ASSIGN && call != nil && calleeName(mf, call) == "builtin.len" && len(call.Args) == 1 && varOf(mf, c15Through(mf, call.Args[0])) == recv {
+				note(v)
+				numOK = onEveryReturn(a.Pt)
+			}
+		case c15MetricT + ".Size":
+			nSize++
+			switch a.Tok {
+			case token.ADD_ASSIGN:
+				if _, ok := c15SumsSizes(mf, recv, a); ok {
+					note(v)
+					sizeOK = true
+				}
+			case token.ASSIGN:
+				// copied from a local accumulator
+				sv := varOf(mf, core.StripConv(info, a.RHS))
+				if sv == nil || sv.IsField() {
+					continue
+				}
+				var it *core.Iteration
+				nAdd, okDefs := 0, true
+				for _, d := range c15DefsOf(mf, sv) {
+					switch {
+					case d.F != mf:
+						okDefs = false
+					case d.A.Tok == token.ADD_ASSIGN:
+						nAdd++
+						if i2, ok := c15SumsSizes(mf, recv, d.A); ok {
+							it = i2
+						} else {
+							okDefs = false
+						}
+					case d.A.RHS == nil:
+						if _, isSpec := d.A.Stmt.(*ast.ValueSpec); !isSpec {
+							okDefs = false
+						}
+					case d.A.Tok == token.DEFINE || d.A.Tok == token.ASSIGN:
+						if !core.IsConstInt(info, core.StripConv(info, d.A.RHS), 0) {
+							okDefs = false
+						}
+					default:
+						okDefs = false
+					}
+				}
+				if !okDefs || nAdd != 1 || it == nil || it.Done == nil {
+					continue
+				}
+				// the accumulator starts at zero outside the loop, and the copy is made after the loop
+				for _, d := range c15DefsOf(mf, sv) {
+					if d.A.Tok != token.ADD_ASSIGN && c10InLoop(mf, it.Stmt, d.A.Pt) {
+						okDefs = false
+					}
+				}
+				after, _ := mustPassBlockBefore(mf, it.Done, a.Pt)
+				if okDefs && after && !c10InLoop(mf, it.Stmt, a.Pt) && onEveryReturn(a.Pt) {
+					note(v)
+					sizeOK = true
+				}
+			}
+		}
+	}
+	retOK = acc != nil && one
+	for _, rp := range mf.ReturnPoints() {
+		r := rp.Node().(*ast.ReturnStmt)
+		if len(r.Results) == 0 {
+			// bare return: the accumulator must be the named result
+			if mf.Type.Results == nil || len(mf.Type.Results.List) != 1 || len(mf.Type.Results.List[0].Names) != 1 || mf.Info().Defs[mf.Type.Results.List[0].Names[0]] != types.Object(acc) {
+				retOK = false
+			}
+		} else if varOf(mf, r.Results[0]) != acc {
+			retOK = false
+		}
+	}
+	return
+}
+
+// c15RunsBefore: in every execution of f in which the call b runs, one of the calls as has run before it.
+// A deferred call runs when the function returns, deferred calls in the reverse order of their defer
+// statements; so `defer x.Clear(); …; wg.Wait()` and `…; wg.Wait(); x.Clear()` are the same order.
+func c15RunsBefore(f *core.FuncInfo, as []*core.CallSite, b *core.CallSite) (bool, []core.Point) {
+	var plain, deferred []core.Point
+	for _, a := range as {
+		if a.InGo {
+			continue
+		}
+		if a.InDefer {
+			deferred = append(deferred, a.Pt)
+		} else {
+			plain = append(plain, a.Pt)
+		}
+	}
+	if b.InGo {
+		return false, nil
+	}
+	if !b.InDefer {
+		return f.MustPassBefore(plain, b.Pt)
+	}
+	// b runs at the exit of every execution that passed its defer statement: such an execution must pass a
+	// plain a somewhere, or register a deferred a after b was registered (it then runs first)
+	reach, p1 := f.ReachableAvoiding(b.Pt, core.PointSet(plain...), nil)
+	if !reach {
+		return true, nil
+	}
+	p2, found := core.PathQuery{F: f, From: b.Pt, FromAfter: true, Avoid: core.PointSet(append(append([]core.Point{}, plain...), deferred...)...), TargetExit: true}.Find()
+	if !found {
+		return true, nil
+	}
+	return false, append(p1, p2...)
 }
 
 // c15IsSemField: e denotes the Processor.eventsSemaphore field.
